@@ -326,9 +326,45 @@ def _objlike_paste(P, u, rep, objlike_passes):
                     pasting += 1
                 A.ob('R09.14', '%s:%s:%s' % (U, g, 'paste-operator-applied' if ops else 'other-tokens-copied-in-order'), good,
                      '%s turns the replacement list %s into %d token(s) that are not [every token copied in order, each `a ## b` replaced by the result of paste(a, b) written over the copy of a]' % (g, facts['replacement list'], len(outl)), wg, facts)
+                if good:
+                    _pass_keeps_has_space(it, ctx, A, g, wg, facts, outl, want)
         A.ob('R09.14', '%s:%s:objlike-paste-operator-applied' % (U, fn), pasting > 0,
              'none of the passes %s over the replacement list of an object-like macro calls paste() for a ##' % passes, where)
     A.flush()
+
+
+def _pass_keeps_has_space(it, ctx, A, g, wg, facts, outl, want):
+    """R09.18 on a pass over the replacement list of an object-like macro: every token of its result but the first (whose flag
+    expand_macro replaces by the macro name's) carries has_space of the replacement-list token it stands for - a copy that of
+    its source, a pasted token that of the leftmost operand"""
+    for i, (o, w) in enumerate(zip(outl, want)):
+        if i == 0:
+            continue
+        if w[0] == 'copy':
+            verdict, v = _hs_store_verdict(it, ctx, o, w[1])
+            case = 'copied'
+        else:
+            lm = w
+            while lm[0] == 'paste':
+                lm = lm[1]
+            src = lm[1]
+            v = o.fields.get(HS)
+            sv = src.fields.get(HS)
+            if sv is None:
+                sv = it.read_field(src, HS)
+            if v is None or v is sv or (isinstance(v, View) and isinstance(sv, View) and v.cell is sv.cell and v.tag == sv.tag):
+                verdict = 'kept'
+            elif isinstance(it.settle(v), int) or isinstance(v, View):
+                verdict = 'changed'
+            else:
+                verdict = 'unknown'
+            case = 'pasted'
+        if verdict == 'unknown':
+            A.rep.undecided('R09.18', '%s:%s:%s-token-has_space' % (U, g, case), 'has_space of a %s token is written with a value the rule cannot relate to the replacement list (%s)' % (case, _hs_text(v)), where=wg)
+            continue
+        A.ob('R09.18', '%s:%s:%s-token-has_space' % (U, g, case), verdict == 'kept',
+             {'copied': '%s copies a token of the replacement list (not the first) but leaves %s in its has_space: `#define L a , b` / XSTR(L) must give "a , b"',
+              'pasted': '%s leaves %s in has_space of the token made by ## instead of the white space of the left operand (the tokenizer gives the first token of a fresh buffer none): `#define L x a ## b` / XSTR(L) gives "xab" instead of "x ab"'}[case] % (g, _hs_text(v)), wg, facts)
 
 
 def _splice_flags(P, u, rep, it, paths):
@@ -398,6 +434,142 @@ def r_result_white_space(P, u, rep):
         k = o['key']
         return k.startswith('R19.2:%s:' % U) and not k.endswith('at_bol')
     reissue(rep, 'R09.18', sub, why, keep=keep)
+    _copies_keep_has_space(P, u, rep)
+
+
+HS = 'has_space'
+
+
+def _hs_store_verdict(it, ctx, tok, src):
+    """what the stores of one path leave in has_space of `tok`, a copy_token() copy of `src`:
+    'kept' (never written, or written with the source's own flag) | 'changed' (a constant or another token's flag) | 'unknown'"""
+    st = [e for e in ctx.events if e[0] == 'fstore' and e[1] is tok and e[2] == HS]
+    if not st:
+        return 'kept', None
+    v = st[-1][4]
+    sv = src.fields.get(HS)
+    if sv is None:
+        sv = it.read_field(src, HS)
+    if v is sv or (isinstance(v, View) and isinstance(sv, View) and v.cell is sv.cell and v.tag == sv.tag):
+        return 'kept', v
+    c, sc = it.settle(v), it.settle(sv)
+    if isinstance(c, int) and isinstance(sc, int):
+        return ('kept' if bool(c) == bool(sc) else 'changed'), v
+    if isinstance(c, int) or isinstance(v, View):
+        return 'changed', v         # the source flag is not known on this path: some input has the other value
+    return 'unknown', v
+
+
+def _hs_text(v):
+    if isinstance(v, View):
+        return 'the flag ' + strip_ids(v.cell.label) + ('' if v.tag == 'id' else ' (%s)' % v.tag)
+    return 'the constant %r' % (v,) if isinstance(v, int) else strip_ids(repr(v))
+
+
+def _copies_keep_has_space(P, u, rep):
+    """R09.18 on subst: the tokens that are copied into the result (or into the private list handed to preprocess2) and are NOT
+    the first token standing for a construct of the replacement list keep the flag they were read with; the first token of a
+    __VA_OPT__ group takes the flag of the __VA_OPT__ token."""
+    fn = 'subst'
+    it, paths, classes = explore_subst(P, u)
+    A = Agg(rep)
+    w0 = '%s:%d' % (U, u.fn(fn).line)
+    eof = u.enums.get('TK_EOF')
+    seen = {'argument-rest': 0, 'list-handed-to-preprocess2': 0, 'expanded-rest': 0, 'replacement-list-token': 0, 'va-opt-group': 0}
+    for ctx, out in paths:
+        if out[0] != 'ret':
+            continue
+        sp = SubstPath(it, ctx)
+        facts = {'path': ctx.trail}
+        handed = {}
+        for e in sp.calls:
+            if e[1] == 'preprocess2':
+                for k_, t_ in enumerate(chain(it, as_obj(it, e[2][0]), limit=8)[0]):
+                    handed[id(t_)] = (k_, e)
+        pasted_into = set(id(as_obj(it, e[2][0])) for e in sp.calls if e[1] == 'paste' and e[2])
+        for e in sp.calls:
+            if e[1] != 'copy_token':
+                continue
+            src, c = e[2][0], e[4]
+            if not isinstance(src, Obj) or not isinstance(c, Obj) or c.meta.get('copy_of') is not src:
+                continue        # overwritten by a struct assignment (`*cur = *paste(..)`): R19.2 pasted-token-has_space
+            where = '%s:%d' % (U, e[3])
+            k = it.settle(c.fields.get('kind')) if 'kind' in c.fields else None
+            if isinstance(k, int) and k == eof:
+                continue
+            if id(c) in handed:
+                # the private copy of an argument that preprocess2 expands: it reads white space as the invocation had it
+                case, idx = 'list-handed-to-preprocess2', handed[id(c)][0]
+                if idx == 0:
+                    continue    # whatever expansion makes of it, the first token of the result is stamped with the parameter's flags
+                what = 'token %d of the copy of an argument that is handed to preprocess2()' % idx
+                demo = '`#define ID(x) x` / XSTR(ID(a+b)) must give "a+b", XSTR(ID(a + b)) "a + b"'
+            elif id(src) in sp.raw:
+                t, idx = sp.raw[id(src)]
+                if idx == 0:
+                    continue    # the first token of an operand of ##: R19.2 paste-lhs-argument-first-token / paste-empty-lhs-result
+                case = 'argument-rest'
+                what = 'token %d of an argument that is copied unexpanded (operand of ##)' % idx
+                demo = '`#define C(a,b) a##b` / XSTR(C(x, y + z)) must give "xy + z"'
+            elif id(src) in sp.exp:
+                own, idx, pe = sp.exp[id(src)]
+                if idx == 0:
+                    continue    # R19.2 argument-first-token-has_space
+                case = 'expanded-rest'
+                what = 'token %d of a macro-expanded argument' % idx
+                demo = 'XSTR(ID(a + b)) must give "a + b"'
+            elif id(src) in sp.body_ids:
+                pr = sp.pred_of(src)
+                pp = sp.pred_of(pr) if pr is not None else None
+                if pr is not None and '##' in (sp.cls(pr) or {'##'}):
+                    continue    # right of a ##: stands where the (empty) left operand stood: R19.2 paste-empty-lhs-result
+                if id(c) in pasted_into:
+                    continue
+                case = 'replacement-list-token'
+                what = 'an ordinary token of the replacement list'
+                demo = '`#define P(x) x , y` / XSTR(P(1)) must give "1 , y"'
+            else:
+                continue
+            seen[case] += 1
+            verdict, v = _hs_store_verdict(it, ctx, c, src)
+            if verdict == 'unknown':
+                rep.undecided('R09.18', '%s:%s:%s-has_space-kept' % (U, fn, case), 'has_space of %s is written with a value the rule cannot relate to the flag of the token it copies (%s)' % (what, _hs_text(v)), where=where)
+                continue
+            A.ob('R09.18', '%s:%s:%s-has_space-kept' % (U, fn, case), verdict == 'kept',
+                 '%s does not stand first for a parameter, # or ## of the replacement list, yet subst (or the list copier it calls) overwrites its has_space with %s: # spells the white space inside the operand differently from what the program wrote (%s)' % (what, _hs_text(v), demo), where, facts)
+        # __VA_OPT__ ( group ): the first token of the substituted group stands where the __VA_OPT__ token stood
+        for e in sp.calls:
+            if e[1] != 'subst':
+                continue
+            R = as_obj(it, e[4])
+            content = as_obj(it, e[2][0]) if e[2] else None
+            opt = None
+            for x in sp.calls:
+                if x[1] == 'read_macro_arg_one' and isinstance(x[4], Obj) and 'tok' in x[4].fields and as_obj(it, x[4].fields['tok']) is content and len(x[2]) > 1:
+                    start = as_obj(it, x[2][1])
+                    for b in sp.body:
+                        n1 = sp.next_of(b)
+                        if n1 is not None and sp.next_of(n1) is start and sp.cls(b) == {'__VA_OPT__'}:
+                            opt = b
+            if not isinstance(R, Obj) or opt is None:
+                continue
+            kv = R.fields.get('kind')
+            ks = it.settle(kv) if kv is not None else None
+            nonempty = (isinstance(ks, int) and ks != eof) or (isinstance(kv, View) and not isinstance(ks, int) and eof not in [kv.proj(c_) for c_ in kv.cell.cands])
+            linked = any(x[0] == 'fstore' and x[2] == 'next' and it.settle(x[4]) is R for x in ctx.events)
+            if not (nonempty and linked):
+                continue
+            seen['va-opt-group'] += 1
+            v = R.fields.get(HS)
+            ov = opt.fields.get(HS)
+            ok = isinstance(v, View) and isinstance(ov, View) and v.cell is ov.cell and v.tag == 'id' and ov.tag == 'id'
+            A.ob('R09.18', '%s:%s:va-opt-first-token-has_space' % (U, fn), ok,
+                 'the first token that __VA_OPT__( ... ) contributes is linked into the result with the has_space it has inside the parentheses (%s) instead of the white space of the __VA_OPT__ token whose place it takes: `#define F(a,...) a __VA_OPT__(x) b` / XSTR(F(1,2)) gives "1x b" (must be "1 x b"), `a+__VA_OPT__( x)` gives "1+ x" (must be "1+x")' % (
+                     'never written' if v is None else _hs_text(v)), '%s:%d' % (U, e[3]), facts)
+    A.flush()
+    for k_, n_ in seen.items():
+        if n_ == 0:
+            rep.undecided('R09.18', '%s:%s:no-%s-case' % (U, fn, k_), 'no explored path of subst shows the "%s" case' % k_, where=w0)
 
 
 def _refusal_reason(it, u, ctx, calls, D):
